@@ -1,4 +1,5 @@
-/* smoke.c - sanity test of the seams: open/put/flush/compact/close/reopen on
+/* VH_LINK:
+ * smoke.c - sanity test of the seams: open/put/flush/compact/close/reopen on
  * the in-memory FS under the fiber scheduler, with two racing writers. */
 #include <stdlib.h>
 #include <string.h>
